@@ -138,7 +138,8 @@ def main(argv=None):
                 failing.append((r, o))
 
     # bounded drivers: always in thorough tier; in quick tier only for contracts with open obligations
-    need = sorted({r.contract for r, o in failing} | {r.contract for r, _ in undecided})
+    need = sorted({r.contract for r, o in failing} | {r.contract for r, _ in undecided}
+                  | {c.name() for _, c in mine if getattr(c, "always_bounded", False)})
     bounded_targets = [c.name() for _, c in mine] if tier == "thorough" else need
     bounded = {}
     if bounded_targets:
